@@ -181,6 +181,9 @@ def run(an: Analysis, rep):
     rep.run(c07.r07a, an, shj, _enc)
     rep.run(c07.r07b, an, shj, _defs)
     rep.run(c07.r07r, an, shj)
+    from . import json_fold as _jf
+    rep.run(_jf.fold_rule, an, shj)
+    rep.run(_jf.encode_fold_rule, an, shj)
     rep.stats.update(an.stats(interps))
     rep.assumptions += [
         "json / orjson themselves serialise floats, strings and containers identically on 3.7..3.12",
